@@ -500,6 +500,9 @@ class Ctx:
         args = ["go", "build", "-tags", " ".join(tags), "-o", binp]
         if race:
             args.append("-race")
+        if os.environ.get("VERIF_COVER"):
+            # audit mode (bin/anchorcov): which statements of the anchored files does this check execute?
+            args += ["-cover", "-coverpkg=verifharness/...,github.com/chrislusf/seaweedfs/weed/..."]
         args.append("./cmd/" + cmd)
         t0 = time.time()
         p = subprocess.run(args, cwd=harness, env=goenv(), stdout=subprocess.PIPE, stderr=subprocess.STDOUT,
@@ -519,6 +522,9 @@ class Ctx:
         tmpd = os.path.join(self.out, "tmp")
         os.makedirs(tmpd, exist_ok=True)
         e["TMPDIR"] = tmpd
+        if os.environ.get("VERIF_COVER"):
+            os.makedirs(os.environ["VERIF_COVER"], exist_ok=True)
+            e["GOCOVERDIR"] = os.environ["VERIF_COVER"]
         if env:
             e.update(env)
         t0 = time.time()
